@@ -565,12 +565,12 @@ struct Generator {
       if (o.typed && fi.na <= 8 && r.chance(1, 2)) {  // parameter kinds: narrow integers, float, long double, in any order; floating-point result
         if (fi.nd == 0 && r.chance(1, 2)) fi.nd = (int) r.range(1, r.chance(1, 4) ? 10 : 4);
         bool stacky = r.chance(1, 3);   // more integers than integer registers (or more doubles than SSE registers) followed by long doubles: everything meets on the stack
-        if (stacky) { if (r.chance(2, 3)) fi.na = (int) r.range(7, 8); else fi.nd = (int) r.range(9, 10); if (fi.nd == 0) fi.nd = (int) r.range(1, 3); }
+        if (stacky) { if (r.chance(2, 3)) fi.na = (int) r.range(7, 8); else fi.nd = (int) r.range(9, 12); if (fi.nd == 0) fi.nd = (int) r.range(1, 3); }
         static const char ik[] = "qqqiubBwW", fk[] = "ddfl"; std::string ints, fps;
         int nblk = 0;
         for (int k = 0; k < fi.na; k++) { bool blk = o.blocks && nblk < 3 && !(k == 0 && fi.fuel) && r.chance(1, 3); if (blk) nblk++; ints += (k == 0 && fi.fuel) ? 'q' : blk ? "STQPMNGH"[r.below(8)] : ik[r.below(9)]; }
         for (int k = 0; k < fi.nd; k++) fps += fk[r.below(4)];
-        if (stacky) fps[fps.size() - 1] = 'l';
+        if (stacky && (fi.nd < 9 || r.coin())) fps[fps.size() - 1] = 'l';   // (with more than 8 floating-point parameters the overflow may also be floats and doubles only)
         size_t a = 0, b = 0; while (a < ints.size() || b < fps.size()) { bool ti = b >= fps.size() || (a < ints.size() && r.coin()); if (a == 0 && fi.fuel) ti = true; if (stacky && b + 1 == fps.size() && a < ints.size()) ti = true; fi.ps += ti ? ints[a++] : fps[b++]; }  // (stacky: the last long double comes after all integers)
         if (r.chance(1, 3)) fi.rt = "dfl"[r.below(3)];
       }
